@@ -7,7 +7,7 @@ from ..report import Inconclusive
 from ..gram import model as gm
 from ..py.ctxtypes import ContextClasses, Typer
 from ..py.guards import always_raises
-from ..py.index import u, walk_shallow
+from ..py.index import u, walk_shallow, pos
 from . import c14, common
 
 SYNERR = "error.BlackbirdErrorListener.syntaxError"
@@ -318,8 +318,8 @@ def resolve_str(fn, e, before):
     if isinstance(e, ast.Name):
         best = None
         for n in walk_shallow(fn):
-            if isinstance(n, ast.Assign) and any(isinstance(t, ast.Name) and t.id == e.id for t in n.targets) and n.lineno <= before.lineno:
-                if best is None or n.lineno > best.lineno:
+            if isinstance(n, ast.Assign) and any(isinstance(t, ast.Name) and t.id == e.id for t in n.targets) and pos(n) <= pos(before):
+                if best is None or pos(n) > pos(best):
                     best = n
         if best is not None:
             return resolve_str(fn, best.value, best)
